@@ -514,6 +514,15 @@ impl<T: CellT + std::hash::Hash> Machine<T> {
                 arr[(conc[0], conc[1])] = value.unwrap();
                 res_unit()
             }
+            "set_flat" => {
+                if get_u64(a, "via") == 0 {
+                    arr.data_mut()[conc[0]] = value.unwrap();
+                } else {
+                    let flat: &mut [T] = arr.as_mut();
+                    flat[conc[0]] = value.unwrap();
+                }
+                res_unit()
+            }
             "swap" => {
                 arr.swap((conc[0], conc[1]), (conc[2], conc[3]));
                 res_unit()
@@ -729,6 +738,7 @@ pub fn index_args(op: &str, a: &Value) -> Vec<u64> {
         "insert_row" | "insert_col" | "remove_row" | "remove_col" => vec![get_u64(a, "index")],
         "d_nth" | "d_nth_back" | "d_find" => vec![get_u64(a, "n")],
         "set" => vec![get_u64(a, "c"), get_u64(a, "r")],
+        "set_flat" => vec![get_u64(a, "i")],
         "swap" => vec![get_u64(a, "c1"), get_u64(a, "r1"), get_u64(a, "c2"), get_u64(a, "r2")],
         "swap_rows" => vec![get_u64(a, "r1"), get_u64(a, "r2")],
         "swap_cols" => vec![get_u64(a, "c1"), get_u64(a, "c2")],
